@@ -45,6 +45,12 @@ package safelog
 //@   at call Scrub assert {lines-are-consecutive-segments} base(arg0) == base(ls.buffer) && arg0.off == ls.buffer.off
 //@   after call Scrub ghost scrubbedBase = base(ret0)
 //@   at call Write assert {only-scrubbed-lines-reach-the-sink} base(arg0) == scrubbedBase && calls(Scrub) == calls(Write) + 1
+//   Concurrent writers (two loggers sharing one scrubber): the whole Write is ONE critical section of the scrubber's
+//   lock - taken once at entry, released once at return - so that the pending bytes and the position found in them
+//   cannot change between finding a line, emitting it and consuming it.
+//@   at call Lock assert {one-critical-section-per-write} calls(Lock) == 0
+//@   at call Unlock assert {lock-held-until-return} calls(Unlock) == 0 && calls(Lock) == 1
+//@   ensures {locked-exactly-once} calls(Lock) == 1 && calls(Unlock) == 1
 //@   ensures {counts-all-bytes} n == len(b)
 //@   ensures {pending-has-no-newline} err == nil ==> (forall k int :: 0 <= k && k < len(ls.buffer) ==> ls.buffer[k] != 10)
 //@   ensures {pending-is-private} cap(ls.buffer) > 0 ==> base(ls.buffer) != base(b)
